@@ -28,6 +28,12 @@ Record session := mkSession {
   s_init : Q;
   s_maxp : Q }.
 
+(* A session is identified by (session id, station id): ChargingNetwork.unplug looks the EV up by
+   station and compares the session id, so two sessions may share an id as long as they use
+   different stations (ids numbered per station, merged batches). *)
+Definition skey (x : session) : Z * Z := (sid x, s_station x).
+Definition key_eqb (a b : Z * Z) : bool := Z.eqb (fst a) (fst b) && Z.eqb (snd a) (snd b).
+
 Inductive event :=
 | EPlugin (ts : Z) (x : session)
 | EUnplug (ts : Z) (x : session)
